@@ -15,6 +15,8 @@ CONSTANTS
   ClockAnomalies = FALSE
   CacheLoss = TRUE
   LiveRounds = FALSE
+  CachePutFails = TRUE
+  CrashInCreate = TRUE
   Stops = FALSE
 INVARIANTS LockAppendOnly AckPublished AckInLock SameAck LeafCount PubBacked Recoverable
 PROPERTIES LockStepExtends OutcomeIsFinal
